@@ -25,13 +25,20 @@ import (
 const hdrSize = 84
 
 type rd struct {
-	Kind   string `json:"k"` // fetch region header loc
+	Kind   string `json:"k"` // fetch region header loc (bulk elements reuse I/Off/N)
 	I      int    `json:"i"`
 	Off, N uint32
 }
 
+// bulk is one FetchBlockRegions / FetchBlockHeaders / FetchBlocks call.
+type bulk struct {
+	Kind string `json:"k"` // regions headers blocks
+	Reqs []rd   `json:"reqs"`
+}
+
 type op struct {
 	Kind   string   `json:"k"` // commit read cursor reopen
+	Bulks  []bulk   `json:"bulks,omitempty"` // after Reads (inside the tx for commit; the read itself for a read op)
 	Blocks [][]byte `json:"-"`
 	Specs  []string `json:"specs,omitempty"` // Coq bspec terms of Blocks
 	Sizes  []int    `json:"sizes,omitempty"`
@@ -70,6 +77,24 @@ func coqRd(r rd) string {
 		return fmt.Sprintf("RHeader %d", r.I)
 	}
 	return fmt.Sprintf("RLoc %d", r.I)
+}
+
+func coqBulk(b bulk) string {
+	var xs []string
+	for _, q := range b.Reqs {
+		if b.Kind == "regions" {
+			xs = append(xs, fmt.Sprintf("(%d, %d, %d)", q.I, q.Off, q.N))
+		} else {
+			xs = append(xs, fmt.Sprintf("%d", q.I))
+		}
+	}
+	switch b.Kind {
+	case "regions":
+		return "RRegions " + lib.CoqList(xs)
+	case "headers":
+		return "RHeaders " + lib.CoqList(xs)
+	}
+	return "RBlocks " + lib.CoqList(xs)
 }
 
 type scenario struct {
@@ -178,6 +203,92 @@ func (r *runner) doRead(tx database.Tx, q rd, pending [][]byte) {
 	}
 }
 
+// doBulk performs one bulk call and checks it against the map of the
+// single-element answers computed from the stored bytes.
+func (r *runner) doBulk(tx database.Tx, b bulk, pending [][]byte) {
+	hashes := make([]common.Uint256, len(b.Reqs))
+	regions := make([]database.BlockRegion, len(b.Reqs))
+	want := make([][]byte, len(b.Reqs))
+	wantErr := 0 // first early rejection in request order
+	for k, q := range b.Reqs {
+		hashes[k] = hashOf(q.I)
+		var orig []byte
+		known := false
+		if q.I < len(r.stored) {
+			orig, known = r.stored[q.I], true
+		} else if q.I-len(r.stored) < len(pending) {
+			orig, known = pending[q.I-len(r.stored)], true
+		}
+		off, n := q.Off, q.N
+		if b.Kind == "headers" {
+			off, n = 0, hdrSize
+		}
+		regions[k] = database.BlockRegion{Hash: &hashes[k], Offset: off, Len: n}
+		code := 0
+		switch {
+		case !known:
+			code = 1
+		case b.Kind == "blocks":
+			want[k] = orig
+		case uint64(off)+uint64(n) > uint64(len(orig)):
+			code = 2
+		default:
+			want[k] = orig[off : uint64(off)+uint64(n)]
+		}
+		if code != 0 && wantErr == 0 {
+			wantErr = code
+		}
+	}
+	var got [][]byte
+	var err error
+	switch b.Kind {
+	case "regions":
+		got, err = tx.FetchBlockRegions(regions)
+	case "headers":
+		got, err = tx.FetchBlockHeaders(hashes)
+	default:
+		got, err = tx.FetchBlocks(hashes)
+	}
+	if err != nil {
+		r.obs = append(r.obs, fmt.Sprintf("BErr %d", errCode(err)))
+		fmt.Fprintf(&r.okey, "B%se%d;", b.Kind[:1], errCode(err))
+	} else {
+		var xs []string
+		for _, g := range got {
+			xs = append(xs, fmt.Sprintf("(%d, %d)", len(g), crc32.Checksum(g, castagnoli)))
+		}
+		r.obs = append(r.obs, "BBulk "+lib.CoqList(xs))
+		fmt.Fprintf(&r.okey, "B%s%d;", b.Kind[:1], len(got))
+	}
+	distinct := map[int]bool{}
+	for _, q := range b.Reqs {
+		distinct[q.I] = true
+	}
+	if len(distinct) >= 2 {
+		r.edge = true
+	}
+	in := map[string]interface{}{"bulk": b, "stored_blocks": len(r.stored), "pending_blocks": len(pending)}
+	if wantErr != 0 {
+		if err == nil || errCode(err) != wantErr {
+			in["want_error_class"], in["err"] = wantErr, fmt.Sprint(err)
+			r.fail("Fetch"+b.Kind+":bulk-accepted", "bulk call with an unknown block / out-of-bounds region is not rejected with the expected error", in)
+		}
+		return
+	}
+	if err != nil || len(got) != len(want) {
+		in["err"] = fmt.Sprint(err)
+		r.fail("Fetch"+b.Kind+":bulk-mismatch", "bulk call over stored blocks failed or returned the wrong number of elements", in)
+		return
+	}
+	for k := range want {
+		if !bytes.Equal(got[k], want[k]) {
+			in["element"], in["block"] = k, b.Reqs[k].I
+			r.fail("Fetch"+b.Kind+":bulk-mismatch", "element of a bulk result is not the bytes of the requested block/region (single reads of the same request are)", in)
+			return
+		}
+	}
+}
+
 func (r *runner) open(create bool) error {
 	var err error
 	path := filepath.Join(r.dir, "db")
@@ -233,6 +344,9 @@ func (r *runner) run() (opsCoq []string, finalFiles string) {
 			for _, q := range o.Reads {
 				rs = append(rs, coqRd(q))
 			}
+			for _, b := range o.Bulks {
+				rs = append(rs, coqBulk(b))
+			}
 			opsCoq = append(opsCoq, fmt.Sprintf("OCommit %s %s", lib.CoqList(bl), lib.CoqList(rs)))
 			f0, _ := ffldb.WriteCursorVerif(r.db)
 			err := r.db.Update(func(tx database.Tx) error {
@@ -243,6 +357,9 @@ func (r *runner) run() (opsCoq []string, finalFiles string) {
 				}
 				for _, q := range o.Reads {
 					r.doRead(tx, q, o.Blocks)
+				}
+				for _, b := range o.Bulks {
+					r.doBulk(tx, b, o.Blocks)
 				}
 				return nil
 			})
@@ -255,6 +372,11 @@ func (r *runner) run() (opsCoq []string, finalFiles string) {
 				r.okey.WriteString("roll;")
 			}
 		case "read":
+			if len(o.Bulks) > 0 {
+				opsCoq = append(opsCoq, "ORead ("+coqBulk(o.Bulks[0])+")")
+				r.db.View(func(tx database.Tx) error { r.doBulk(tx, o.Bulks[0], nil); return nil })
+				break
+			}
 			opsCoq = append(opsCoq, "ORead ("+coqRd(o.Reads[0])+")")
 			r.db.View(func(tx database.Tx) error { r.doRead(tx, o.Reads[0], nil); return nil })
 		case "cursor":
@@ -359,6 +481,58 @@ func edgeReads(i, L int) []rd {
 	return rs
 }
 
+// genBulk builds a bulk request over blocks [0, n) (lens known): 2..5 requests
+// over different blocks (first and last block included when possible, so that
+// several flat files are touched), sometimes the same block twice, mostly valid.
+func genBulk(rng *lib.Rng, lens []int, n int) bulk {
+	b := bulk{Kind: []string{"regions", "regions", "headers", "blocks"}[rng.Intn(4)]}
+	k := 2 + rng.Intn(4)
+	for j := 0; j < k; j++ {
+		i := rng.Intn(n)
+		switch {
+		case j == 0:
+			i = n - 1
+		case j == 1:
+			i = 0
+		case rng.Chance(15) && len(b.Reqs) > 0:
+			i = b.Reqs[rng.Intn(len(b.Reqs))].I // same block twice
+		}
+		L := lens[i]
+		off := rng.Intn(L + 1)
+		cnt := rng.Intn(L - off + 1)
+		if rng.Chance(30) {
+			off, cnt = 0, L
+		}
+		b.Reqs = append(b.Reqs, rd{"region", i, uint32(off), uint32(cnt)})
+	}
+	if b.Kind == "headers" {
+		// keep only blocks long enough for a header unless we want a rejection
+		if !rng.Chance(15) {
+			var keep []rd
+			for _, q := range b.Reqs {
+				if lens[q.I] >= hdrSize {
+					keep = append(keep, q)
+				}
+			}
+			b.Reqs = keep
+		}
+	} else if rng.Chance(12) {
+		j := rng.Intn(len(b.Reqs))
+		if rng.Bool() {
+			b.Reqs[j].I = n + 3 // never stored
+		} else {
+			b.Reqs[j].Off, b.Reqs[j].N = uint32(lens[b.Reqs[j].I]), 1 // one byte beyond
+		}
+	}
+	rng.Intn(2)
+	if rng.Bool() { // request order differs from storage order
+		for a, z := 0, len(b.Reqs)-1; a < z; a, z = a+1, z-1 {
+			b.Reqs[a], b.Reqs[z] = b.Reqs[z], b.Reqs[a]
+		}
+	}
+	return b
+}
+
 func genScenario(rng *lib.Rng, max uint32, ncommits int, oversize bool) *scenario {
 	sc := &scenario{max: max, inDomain: true}
 	cur := 0    // model of the cursor offset, to aim at the rollover boundary
@@ -432,11 +606,21 @@ func genScenario(rng *lib.Rng, max uint32, ncommits int, oversize bool) *scenari
 			o.Reads = append(o.Reads, er[rng.Intn(len(er))])
 		}
 		o.Reads = append(o.Reads, rd{"fetch", stored + nb, 0, 0}) // never stored
+		// bulk call inside the transaction: pending and on-disk blocks mixed
+		if stored+nb >= 2 && rng.Chance(60) {
+			o.Bulks = append(o.Bulks, genBulk(rng, lens, stored+nb))
+		}
 		sc.ops = append(sc.ops, o)
 		stored += nb
 		sc.ops = append(sc.ops, op{Kind: "cursor"})
 		if rng.Chance(35) {
 			sc.ops = append(sc.ops, op{Kind: "reopen"}, op{Kind: "cursor"})
+		}
+		// bulk calls after commit
+		if stored >= 2 {
+			for j := rng.Intn(3); j > 0; j-- {
+				sc.ops = append(sc.ops, op{Kind: "read", Bulks: []bulk{genBulk(rng, lens, stored)}})
+			}
 		}
 		// reads after commit
 		nr := 3 + rng.Intn(6)
@@ -457,6 +641,15 @@ func genScenario(rng *lib.Rng, max uint32, ncommits int, oversize bool) *scenari
 	}
 	// at the end: everything once more after a reopen
 	sc.ops = append(sc.ops, op{Kind: "reopen"}, op{Kind: "cursor"})
+	if stored >= 2 {
+		all := bulk{Kind: "blocks"}
+		part := bulk{Kind: "regions"}
+		for i := stored - 1; i >= 0; i-- {
+			all.Reqs = append(all.Reqs, rd{"fetch", i, 0, 0})
+			part.Reqs = append(part.Reqs, rd{"region", i, uint32(lens[i] / 3), uint32(lens[i] - lens[i]/3)})
+		}
+		sc.ops = append(sc.ops, op{Kind: "read", Bulks: []bulk{all}}, op{Kind: "read", Bulks: []bulk{part}}, op{Kind: "read", Bulks: []bulk{genBulk(rng, lens, stored)}})
+	}
 	for i := 0; i < stored; i++ {
 		sc.ops = append(sc.ops, op{Kind: "read", Reads: []rd{{"fetch", i, 0, 0}}}, op{Kind: "read", Reads: []rd{{"loc", i, 0, 0}}})
 		er := edgeReads(i, lens[i])
@@ -529,6 +722,22 @@ func corpus() []*scenario {
 	s4.ops = append(s4.ops, op{Kind: "commit", Blocks: [][]byte{blk(10, 7), blk(600, 8), blk(10, 9)}, Sizes: []int{10, 600, 10}}, op{Kind: "cursor"},
 		op{Kind: "reopen"}, op{Kind: "read", Reads: []rd{{"fetch", 1, 0, 0}}}, op{Kind: "read", Reads: []rd{{"fetch", 2, 0, 0}}}, op{Kind: "cursor"})
 	out = append(out, specs(s4))
+	// bulk calls over blocks with different contents in two files, in reverse
+	// order, the same block twice, mixed with a pending block
+	s5 := &scenario{max: 512, inDomain: true}
+	rg := func(i, off, n int) rd { return rd{"region", i, uint32(off), uint32(n)} }
+	s5.ops = append(s5.ops, op{Kind: "commit", Blocks: [][]byte{blk(200, 1), blk(250, 90)}, Sizes: []int{200, 250}},
+		op{Kind: "commit", Blocks: [][]byte{blk(120, 170)}, Sizes: []int{120},
+			Bulks: []bulk{{"regions", []rd{rg(2, 0, 120), rg(0, 10, 50), rg(1, 100, 100)}}, {"headers", []rd{rg(1, 0, 0), rg(2, 0, 0), rg(0, 0, 0)}}, {"blocks", []rd{rg(2, 0, 0), rg(0, 0, 0)}}}},
+		op{Kind: "read", Bulks: []bulk{{"regions", []rd{rg(2, 5, 100), rg(1, 0, 250), rg(0, 199, 1), rg(1, 249, 1), rg(2, 0, 0)}}}},
+		op{Kind: "read", Bulks: []bulk{{"headers", []rd{rg(2, 0, 0), rg(1, 0, 0), rg(0, 0, 0), rg(1, 0, 0)}}}},
+		op{Kind: "read", Bulks: []bulk{{"blocks", []rd{rg(1, 0, 0), rg(2, 0, 0), rg(0, 0, 0)}}}},
+		op{Kind: "read", Bulks: []bulk{{"regions", []rd{rg(0, 0, 200), rg(1, 250, 1)}}}},
+		op{Kind: "read", Bulks: []bulk{{"blocks", []rd{rg(0, 0, 0), rg(7, 0, 0)}}}},
+		op{Kind: "reopen"},
+		op{Kind: "read", Bulks: []bulk{{"regions", []rd{rg(2, 5, 100), rg(0, 0, 200), rg(1, 1, 1)}}}},
+		op{Kind: "read", Bulks: []bulk{{"headers", []rd{rg(0, 0, 0), rg(2, 0, 0)}}}})
+	out = append(out, specs(s5))
 	return out
 }
 
